@@ -269,6 +269,11 @@ TopEdits(c) ==
      \cup { Ed("top", "swap", i, s2(i), d2(i)) : i \in lo..(k - 1) }
      \cup { Ed("top", op, j, sI(j), dI(j)) : op \in {"ins", "insc"}, j \in 1..(k + 1) }
      \* the digest is recomputed by the forger, so the digest check must still agree with a recomputation ("same")
+     \* Named deviation (assumption, not a verdict): an ECDSA signature (r, s) has the twin (r, n - s), which verifies
+     \* over the same bytes.  The statement's "differs in its signature value => not accepted" cannot hold for a
+     \* verifier of plain ECDSA (no low-s rule in the NDN packet format); the twin is enumerated so that the evidence
+     \* shows what the verifier does, with verdict "either".
+     \cup (IF Signed(c) /\ c.sg.kind = "ecdsa" THEN { Ed("top", "svneg", sv, "either", IF NeedDigest(c) THEN "same" ELSE "na") } ELSE {})
      \cup (IF Signed(c) THEN { Ed("top", op, sv, "reject", IF NeedDigest(c) THEN "same" ELSE "na") :
                                  op \in {"svext1", "svext4"} \cup (IF c.sg.a > 0 THEN {"svcut1"} ELSE {}) }
            ELSE {})
